@@ -14,6 +14,9 @@ def run(prop, tier, seed):
     if prop == 'C18':
         from . import gen_print
         return gen_print.run(prop, tier, seed)
+    if prop == 'C20':
+        from . import gen_coro
+        return gen_coro.run(prop, tier, seed)
     if prop == 'C12':
         from . import thr
         return thr.run(prop, tier, seed)
